@@ -63,7 +63,7 @@ def run(ctx):
     obs = ctx.obs
     obs.extra['meta'] = META
     contracts.attach_all(obs, only={'_find_ocean_floor_indexes'})
-    total = ctx.n(1200, 50000)
+    total = ctx.n(1200, 100000)
     for case, rng in ctx.cases(total):
         conv = CONVS[case % len(CONVS)]
         spec = {'case': case, 'convention': conv}
